@@ -25,3 +25,22 @@ impl<K, N, E> Heap<K, N, E> {
     { unimplemented!() }
 
 }
+
+impl<K, N, E> Node<K, N, E>
+where
+    K: Clone + Hash + PartialEq + Eq,
+    N: Clone,
+    E: Clone,
+{
+    // Node::new (real body hash-pinned): allocates a node with empty adjacency lists. The heap
+    // identifies cells by key, so a second node with an existing key is modelled as `detached`.
+    #[verifier::external_body]
+    pub fn new(key: K, value: N, heap: &mut Heap<K, N, E>) -> (r: Self)
+        ensures r.k() == key, r.val() == value,
+            old(heap).dom().contains(key) ==> r.detached() && final(heap).dom() == old(heap).dom()
+                && forall|k: K| #[trigger] final(heap).cell(k) == old(heap).cell(k),
+            !old(heap).dom().contains(key) ==> !r.detached() && final(heap).dom() == old(heap).dom().insert(key)
+                && final(heap).cell(key).out() == Seq::<(K, E)>::empty() && final(heap).cell(key).inn() == Seq::<(K, E)>::empty()
+                && forall|k: K| k != key ==> #[trigger] final(heap).cell(k) == old(heap).cell(k),
+    { unimplemented!() }
+}
